@@ -626,6 +626,10 @@ func run(c *lib.Ctx) error {
 					cand.AtoMS = 1 + h.rng.Int63n(segMS-1)
 				case 4:
 					cand.AtoMS = segMS + segMS/4 // longer than a segment: reaches into the next loop at a wrap
+				case 5:
+					if tr := lib.TruncatingAtoMS(segMS); len(tr) > 0 {
+						cand.AtoMS = tr[h.rng.Intn(len(tr))] // e.g. 1.001: float64(1.001)*1000 < 1001
+					}
 				}
 				if cand.AtoMS > 0 {
 					cand.Extra = "" // see below
@@ -635,6 +639,13 @@ func run(c *lib.Ctx) error {
 			cfg := pairs.Pick("mpd", segMS, cands)
 			if k < 3 {
 				cfg = lib.TLCfg{Snr: -1, Tsbd: -1, Mode: modes[k]}
+			}
+			if k == 5 {
+				// an offset whose float64 form times 1000 lies just below a whole millisecond, timeline modes
+				if tr := lib.TruncatingAtoMS(segMS); len(tr) > 0 {
+					cfg = lib.TLCfg{Snr: -1, Tsbd: -1, Mode: []string{"tlt", "tlnr"}[len(jobs)%2], AtoMS: tr[h.rng.Intn(len(tr))]}
+					pairs.Add("mpd", segMS, cfg)
+				}
 			}
 			if k == 3 || k == 4 {
 				// every asset (every video timescale) with generated subtitles under both timeline modes
